@@ -205,6 +205,8 @@ static const struct rtr_socket *src_ptr(unsigned long s)
 {
 	if (s == 1)
 		return &rsock;
+	if (s == 0)
+		return NULL; /* added by the application itself */
 	return (const struct rtr_socket *)(uintptr_t)(0x10000 + s * 64);
 }
 
